@@ -38,13 +38,14 @@ def holds (op : Op) (o : Ordering) : Bool :=
   | .gt => o == .gt
   | .ge => o != .lt
 
-/-- resolveOperator: no value, no comparison holds -/
+/-- resolveOperator: no value, no comparison holds; a value of another kind than the literal (a union leaf
+    holding its other member type) is not equal to it and not ordered with it: only `!=` holds -/
 def evalCmp (op : Op) (leaf : Option V) (lit : V) : Bool :=
   match leaf with
   | none => false
   | some a => match ord a lit with
     | some o => holds op o
-    | none => false
+    | none => op == .ne
 
 /-- an expression of the XPath subset: a path of names, ending in a comparison with a literal or not -/
 structure Expr where
